@@ -88,7 +88,7 @@ def fixture(fxf):
     out = []
     for name, exp in (("good_set_fragment_size", True), ("good_cmp_set_fragment_size", True),
                       ("bad_old_set_fragment_size", False), ("bad_store_first_set_fragment_size", False),
-                      ("bad_bounds_set_fragment_size", False)):
+                      ("bad_bounds_set_fragment_size", False), ("bad_truncated_set_fragment_size", False)):
         b = fxf.fn("Factory", name)
         res = []
         check_setter(b, "fragment_size", lambda rule, desc, ok, detail="", line=None: res.append(ok))
